@@ -8,7 +8,13 @@ Two independent parts, both run against the working tree of the repository on ev
   and proved with the `interval` tactic (`Disc/LensInterval.v`); a lemma that does not compile is
   a model/implementation disagreement;
 * float exploration with a direct oracle: totality, symmetry, bounds, accuracy against a
-  40-digit mpmath evaluation of the exact lens area, on many inputs concentrated at tangency.
+  40-digit mpmath evaluation of the exact lens area, on many inputs concentrated at tangency,
+  plus a coincidence stream (radii and centre distance forming an exactly representable right
+  triangle, a centre exactly on the other disc's boundary; Disc/LensCoincide.v);
+* state runs: every explored input is evaluated again on reused Point objects with the class-wide
+  Rectangle tolerances defined (small / ordinary / large, set_epsilon or a loaded Die) and once more
+  with them undefined again; the function is a function of its arguments (Disc/LensState.v), so
+  every such result must equal the first one bit for bit.
 """
 from __future__ import annotations
 
@@ -42,6 +48,15 @@ ASSUMPTIONS = [
     "lens area of the exact real centre distance, evaluated with mpmath at 40 digits",
     "interval goals are generated at relative distance >= 1e-4 from exact tangency (the atan form of acos is singular at "
     "+-1); tangency itself (0..8 ulp) is covered by the float exploration only",
+    "coincidence stream: integer right triangles (centre offset up to 40, radii up to ~72) and their images under "
+    "scaling / translation, radii kept within [1e-3, 1e6]; the centre-on-boundary class lets the smaller radius go down "
+    "to 1e-12 of the larger one (there the tolerance 1e-5*max(r)^2 exceeds the whole small disc: only totality, "
+    "finiteness, sign and the upper bound are effectively tested); integral inputs are also passed as Python ints "
+    "(what a YAML netlist with integer centres produces)",
+    "function of its arguments: the process state varied is the pair of class-wide Rectangle tolerances (the only "
+    "mutable state frame.geometry has), through set_epsilon, undefine_epsilon and Die loading; results in different "
+    "states are compared bit for bit (the code does not read the state: same instructions, same result); a state "
+    "that cannot be established (Die refuses the size) is skipped, not reported",
 ]
 
 # The per-case lemmas are proved by `interval with (i_prec 90)`, whose multi-precision arithmetic is
@@ -61,17 +76,105 @@ def _impl():
     return circle_circle_intersection_area, Point
 
 
-def call(case):
-    """-> (v, w): f(c1,r1,c2,r2) and f(c2,r2,c1,r1); an exception is returned as ('exc', text)."""
+# Process state: the class-wide Rectangle tolerances. A state is plain data:
+#   ["eps", e]       Rectangle.set_epsilon(e)            (area tolerance sqrt(e))
+#   ["eps2", e, a]   Rectangle.set_epsilon(e, a)
+#   ["die", "WxH"]   a Die is loaded while the tolerances are undefined (defines them: 1e-11 * min(W, H))
+#   ["undef"]        Rectangle.undefine_epsilon()        (the state of the first evaluation, again)
+def apply_state(st) -> bool:
+    """Establishes the state; False when it could not be established (not this property's business)."""
+    from frame.geometry.geometry import Rectangle
+    Rectangle.undefine_epsilon()
+    try:
+        if st[0] == "eps":
+            Rectangle.set_epsilon(float(st[1]))
+        elif st[0] == "eps2":
+            Rectangle.set_epsilon(float(st[1]), float(st[2]))
+        elif st[0] == "die":
+            from frame.die.die import Die
+            Die(str(st[1]))
+            if not Rectangle.epsilon_defined():
+                return False
+        return True
+    except Exception:  # noqa: BLE001
+        Rectangle.undefine_epsilon()
+        return False
+
+
+def state_text(st) -> str:
+    if st[0] == "eps":
+        return f"after Rectangle.set_epsilon({float(st[1])!r})"
+    if st[0] == "eps2":
+        return f"after Rectangle.set_epsilon({float(st[1])!r}, {float(st[2])!r})"
+    if st[0] == "die":
+        return f"after Die({st[1]!r}) was loaded (tolerances undefined before)"
+    return "after Rectangle.undefine_epsilon(), on the Point objects of the earlier calls"
+
+
+def _integral(t) -> bool:
+    return all(float(v).is_integer() and abs(v) < 2 ** 53 for v in t)
+
+
+def call(case, states=(), form="float"):
+    """-> (v, w, extra): f(c1,r1,c2,r2) and f(c2,r2,c1,r1) on fresh Point objects with the Rectangle tolerances
+    undefined; an exception is returned as ('exc', text). extra[i] = the same pair evaluated in states[i], all on
+    ONE pair of Point objects (the same object twice when the centres coincide); None when the state could not be
+    established. form "int": integral inputs are passed as Python ints."""
     f, Point = _impl()
+    from frame.geometry.geometry import Rectangle
+    Rectangle.undefine_epsilon()
     x1, y1, r1, x2, y2, r2 = case
-    res = []
-    for a in ((Point(x1, y1), r1, Point(x2, y2), r2), (Point(x2, y2), r2, Point(x1, y1), r1)):
+    if form == "int" and _integral(case):
+        x1, y1, r1, x2, y2, r2 = (int(v) for v in case)
+
+    def one(*a):
         try:
-            res.append(f(*a))
+            return f(*a)
         except Exception as e:  # noqa: BLE001 - totality is part of the property
-            res.append(("exc", f"{type(e).__name__}: {e}"))
-    return res[0], res[1]
+            return ("exc", f"{type(e).__name__}: {e}")
+
+    v = one(Point(x1, y1), r1, Point(x2, y2), r2)
+    w = one(Point(x2, y2), r2, Point(x1, y1), r1)
+    extra = []
+    if states:
+        p1 = Point(x1, y1)
+        p2 = p1 if (x1, y1) == (x2, y2) else Point(x2, y2)
+        for st in states:
+            try:
+                if apply_state(st):
+                    extra.append((one(p1, r1, p2, r2), one(p2, r2, p1, r1)))
+                else:
+                    extra.append(None)
+            finally:
+                Rectangle.undefine_epsilon()
+    return v, w, extra
+
+
+def call_history(steps, form="float"):
+    """steps: input tuples t_0..t_k, evaluated in this order. Each step is evaluated on fresh Point objects (both
+    argument orders) and then on ONE pair of Point objects that lives through the whole history and is moved in place
+    (p.x = ..., p.y = ...) to the step's centres. -> list of ((v, w), (v', w')) per step."""
+    f, Point = _impl()
+    from frame.geometry.geometry import Rectangle
+    Rectangle.undefine_epsilon()
+
+    def one(*a):
+        try:
+            return f(*a)
+        except Exception as e:  # noqa: BLE001
+            return ("exc", f"{type(e).__name__}: {e}")
+
+    p1 = p2 = None
+    res = []
+    for t in steps:
+        x1, y1, r1, x2, y2, r2 = (int(v) for v in t) if form == "int" and _integral(t) else t
+        fresh = (one(Point(x1, y1), r1, Point(x2, y2), r2), one(Point(x2, y2), r2, Point(x1, y1), r1))
+        if p1 is None:
+            p1, p2 = Point(x1, y1), Point(x2, y2)
+        else:
+            p1.x, p1.y, p2.x, p2.y = x1, y1, x2, y2
+        res.append((fresh, (one(p1, r1, p2, r2), one(p2, r2, p1, r1))))
+    return res
 
 
 def case_tuple(case) -> tuple:
@@ -79,14 +182,41 @@ def case_tuple(case) -> tuple:
     return (float(c["c1"][0]), float(c["c1"][1]), float(c["r1"]), float(c["c2"][0]), float(c["c2"][1]), float(c["r2"]))
 
 
-def case_dict(t, cls="") -> dict:
-    return {"c1": [t[0], t[1]], "r1": t[2], "c2": [t[3], t[4]], "r2": t[5], "cls": cls}
+def case_dict(t, cls="", states=None, form=None, before=None) -> dict:
+    d = {"c1": [t[0], t[1]], "r1": t[2], "c2": [t[3], t[4]], "r2": t[5], "cls": cls}
+    if before:
+        d["before"] = [list(b) for b in before]
+    if states:
+        d["states"] = [list(st) for st in states]
+    if form and form != "float":
+        d["form"] = form
+    return d
+
+
+def _res(x) -> dict:
+    return {"v": x if not isinstance(x, tuple) else None, "v_exc": x[1] if isinstance(x, tuple) else None}
+
+
+def _unres(d, k="v"):
+    return d[k] if d.get(k + "_exc") is None else ("exc", d[k + "_exc"])
 
 
 def run_impl(case) -> dict:
-    v, w = call(case_tuple(case))
-    return {"v": v if not isinstance(v, tuple) else None, "v_exc": v[1] if isinstance(v, tuple) else None,
-            "w": w if not isinstance(w, tuple) else None, "w_exc": w[1] if isinstance(w, tuple) else None}
+    if case.get("before"):
+        # a history: the earlier steps, then this input; observation = this input on fresh objects + every step twice
+        steps = [tuple(float(x) for x in b) for b in case["before"]] + [case_tuple(case)]
+        res = call_history(steps, case.get("form", "float"))
+        (v, w) = res[-1][0]
+        return {"v": _res(v)["v"], "v_exc": _res(v)["v_exc"], "w": _res(w)["v"], "w_exc": _res(w)["v_exc"],
+                "history": [{"fresh": [_res(a[0]), _res(a[1])], "reused": [_res(b[0]), _res(b[1])]} for a, b in res]}
+    v, w, extra = call(case_tuple(case), case.get("states") or (), case.get("form", "float"))
+    obs = {"v": v if not isinstance(v, tuple) else None, "v_exc": v[1] if isinstance(v, tuple) else None,
+           "w": w if not isinstance(w, tuple) else None, "w_exc": w[1] if isinstance(w, tuple) else None}
+    if extra:
+        obs["states"] = [None if e is None else
+                         {"v": _res(e[0])["v"], "v_exc": _res(e[0])["v_exc"],
+                          "w": _res(e[1])["v"], "w_exc": _res(e[1])["v_exc"]} for e in extra]
+    return obs
 
 
 # --------------------------------------------------------------------------
@@ -156,17 +286,77 @@ def judge(t, v, w):
     return None
 
 
+def _bits(x):
+    """Value-level identity of a result: exception text, or the bits of the number."""
+    if isinstance(x, tuple):
+        return x
+    try:
+        return float(x).hex()
+    except Exception:  # noqa: BLE001
+        return repr(x)
+
+
+def judge_states(t, v, w, states, extra):
+    """The function is a function of its arguments: the results obtained with the class-wide Rectangle tolerances
+    defined (and afterwards undefined again, on reused Point objects) are those of the first evaluation."""
+    for st, e in zip(states, extra):
+        if e is None:
+            continue
+        for side, base, got in (("", v, e[0]), (" (arguments swapped)", w, e[1])):
+            if _bits(base) != _bits(got):
+                def show(x):
+                    return f"raises {x[1]}" if isinstance(x, tuple) else f"= {x!r}"
+                j = judge(t, e[0], e[1])
+                more = f"; that result violates the property by itself ({j[0]}: {j[1]})" if j else ""
+                return "state-dependent", (f"f{side} {show(base)} with the Rectangle tolerances undefined but "
+                                           f"{show(got)} {state_text(st)}{more}")
+    return None
+
+
+def judge_history(steps, res):
+    """Reused, moved-in-place Point objects must give what fresh objects with the same coordinates give."""
+    for i, (t, (fresh, reused)) in enumerate(zip(steps, res)):
+        for side, a, b in (("", fresh[0], reused[0]), (" (arguments swapped)", fresh[1], reused[1])):
+            if _bits(a) != _bits(b):
+                def show(x):
+                    return f"raises {x[1]}" if isinstance(x, tuple) else f"= {x!r}"
+                return "history-dependent", (
+                    f"step {i} of a history of {len(steps)} calls, c1=({t[0]!r}, {t[1]!r}) r1={t[2]!r} c2=({t[3]!r}, "
+                    f"{t[4]!r}) r2={t[5]!r}: f{side} {show(a)} on fresh Point objects but {show(b)} on the two Point "
+                    f"objects of the earlier calls moved in place to these centres")
+    return None
+
+
 def oracle(case, obs):
     t = case_tuple(case)
     v = obs["v"] if obs.get("v_exc") is None else ("exc", obs["v_exc"])
     w = obs["w"] if obs.get("w_exc") is None else ("exc", obs["w_exc"])
     j = judge(t, v, w)
+    if j is None and obs.get("history"):
+        steps = [tuple(float(x) for x in b) for b in case["before"]] + [t]
+        res = [((_unres(h["fresh"][0]), _unres(h["fresh"][1])), (_unres(h["reused"][0]), _unres(h["reused"][1])))
+               for h in obs["history"]]
+        j = judge_history(steps, res)
+    if j is None and obs.get("states"):
+        extra = [None if e is None else (_unres(e, "v"), _unres(e, "w")) for e in obs["states"]]
+        j = judge_states(t, v, w, case.get("states") or [], extra)
     return None if j is None else f"{j[0]}: {j[1]}"
 
 
 def readable(case) -> str:
-    x1, y1, r1, x2, y2, r2 = case_tuple(case)
-    return f"c1=({x1!r}, {y1!r}) r1={r1!r} c2=({x2!r}, {y2!r}) r2={r2!r}"
+    t = case_tuple(case)
+    if case.get("form") == "int" and _integral(t):
+        t = tuple(int(v) for v in t)
+    x1, y1, r1, x2, y2, r2 = t
+    txt = f"c1=({x1!r}, {y1!r}) r1={r1!r} c2=({x2!r}, {y2!r}) r2={r2!r}"
+    if case.get("before"):
+        txt += "; evaluated after the calls " + "; ".join(
+            f"c1=({b[0]!r}, {b[1]!r}) r1={b[2]!r} c2=({b[3]!r}, {b[4]!r}) r2={b[5]!r}" for b in case["before"]) + \
+            " (each on fresh Point objects and on one reused pair moved in place)"
+    if case.get("states"):
+        txt += "; evaluated first with the Rectangle tolerances undefined, then " + ", then ".join(
+            state_text(st) for st in case["states"])
+    return txt
 
 
 def fail_entry(case, obs, why, **more) -> dict:
@@ -178,7 +368,7 @@ def fail_entry(case, obs, why, **more) -> dict:
 def failure_key(case, why):
     kind = (why or "").split(":")[0]
     if kind not in ("domain-error", "exception", "non-finite", "negative", "above-small-disc", "asymmetric",
-                    "inaccurate"):
+                    "inaccurate", "state-dependent", "history-dependent"):
         kind = "disagree"
     return f"C17/{kind}"
 
@@ -295,63 +485,355 @@ def gen_float_case(rng):
 
 
 # --------------------------------------------------------------------------
+# coincidence stream: exact right triangles, a centre exactly on the other boundary
+# --------------------------------------------------------------------------
+def _isq(n: int):
+    r = math.isqrt(n)
+    return r if r * r == n else None
+
+
+_BASES: dict = {}
+
+
+def coincidence_bases(N: int, M: int) -> list:
+    """Integer configurations (a, b, r1, r2, kind): centre offset (a, b) with 0 <= b <= a <= N, d^2 = a^2 + b^2, and
+    'right-angle': d^2 + r1^2 = r2^2 (the common chord passes through the centre of disc 1; r1 <= M) - all
+    Pythagorean triples (b = 0 or d integral) and all (a,b)-offset right triangles; 'orthogonal': r1^2 + r2^2 = d^2."""
+    if (N, M) not in _BASES:
+        out = []
+        for a in range(1, N + 1):
+            for b in range(0, a + 1):
+                d2 = a * a + b * b
+                for r1 in range(1, M + 1):
+                    r2 = _isq(d2 + r1 * r1)
+                    if r2:
+                        out.append((a, b, r1, r2, "right-angle"))
+                    if r1 * r1 < d2:
+                        r2 = _isq(d2 - r1 * r1)
+                        if r2 and r2 >= r1:
+                            out.append((a, b, r1, r2, "orthogonal"))
+        _BASES[(N, M)] = out
+    return _BASES[(N, M)]
+
+
+def bases_of(N, M, kind) -> list:
+    if (N, M, kind) not in _BASES:
+        _BASES[(N, M, kind)] = [x for x in coincidence_bases(N, M) if x[4] == kind]
+    return _BASES[(N, M, kind)]
+
+
+SYMMETRIES = [(1, 1, 0), (1, -1, 0), (-1, 1, 0), (-1, -1, 0), (1, 1, 1), (1, -1, 1), (-1, 1, 1), (-1, -1, 1)]
+DECIMAL_SCALES = ["0.1", "0.01", "0.001", "0.25", "0.3", "0.5", "0.7", "1.1", "1.5", "2.5", "10", "100", "1000",
+                  "0.05", "0.125", "12.5", "1e4"]
+PRODUCT_SCALES = [0.1, 0.3, 1 / 3, 0.7, 1.1, math.pi, 1e-2, 1e3]
+
+
+def _sym(a, b, k):
+    sa, sb, sw = SYMMETRIES[k]
+    a, b = sa * a, sb * b
+    return (b, a) if sw else (a, b)
+
+
+def coincidence_exhaustive(N=24, M=40) -> list:
+    """Every base configuration under the 8 symmetries of the offset, at the origin, unscaled; with the disc whose
+    centre lies on the chord first (the evaluation swaps the arguments itself) - as floats, and as Python ints for
+    one symmetry of each."""
+    out = []
+    for a, b, r1, r2, kind in coincidence_bases(N, M):
+        seen = set()
+        for k in range(8):
+            o = _sym(a, b, k)
+            if o in seen:
+                continue
+            seen.add(o)
+            out.append(((0.0, 0.0, float(r1), float(o[0]), float(o[1]), float(r2)), f"coinc-{kind}-unit", "float"))
+        o = _sym(a, b, (a + b + r1) % 8)
+        out.append(((0.0, 0.0, float(r1), float(o[0]), float(o[1]), float(r2)), f"coinc-{kind}-int", "int"))
+    return out
+
+
+def gen_coincidence_case(rng):
+    """A random transformation of a base configuration: symmetry of the offset, scale (power of two: exact;
+    decimal as written; floating product), position of the first centre (origin, integers, dyadic, large, decimal),
+    order of the two discs, int / float form. Or a disc whose centre lies exactly on the other disc's boundary."""
+    m = rng.random()
+    if m < 0.22:
+        return gen_boundary_case(rng)
+    want = "right-angle" if rng.random() < 0.65 else "orthogonal"
+    a, b, r1, r2, kind = rng.choice(bases_of(40, 60, want))
+    a, b = _sym(a, b, rng.randrange(8))
+    vals = [F(a), F(b), F(r1), F(r2)]
+    m = rng.random()
+    product = None
+    if m < 0.25:
+        sk, sc = "unit", F(1)
+    elif m < 0.6:
+        sk, sc = "pow2", F(2) ** rng.randint(-9, 14)
+    elif m < 0.9:
+        sk, sc = "decimal", F(rng.choice(DECIMAL_SCALES))
+    else:
+        sk, sc, product = "product", F(1), rng.choice(PRODUCT_SCALES)
+    while max(vals[2], vals[3]) * sc > 10 ** 6:
+        sc /= 2
+    m = rng.random()
+    if m < 0.4:
+        ox, oy = F(0), F(0)
+    elif m < 0.6:
+        ox, oy = F(rng.randint(-10, 10)), F(rng.randint(-10, 10))
+    elif m < 0.75:
+        ox, oy = F(rng.randint(-80, 80), 8), F(rng.randint(-80, 80), 8)
+    elif m < 0.85:
+        ox, oy = F(rng.randint(-9, 9) * 2 ** 20), F(rng.randint(-9, 9) * 2 ** 20)
+    else:
+        ox, oy = F(rng.randint(-100, 100), 10), F(rng.randint(-100, 100), 10)
+    if product is not None:
+        fa, fb, fr1, fr2 = (float(v) * product for v in vals)
+        x1, y1 = float(ox), float(oy)
+        t = (x1, y1, fr1, x1 + fa, y1 + fb, fr2)
+    elif rng.random() < 0.5:
+        # the decimal the user writes: every number rounded once from its exact value
+        t = (float(ox), float(oy), float(vals[2] * sc), float(ox + vals[0] * sc), float(oy + vals[1] * sc),
+             float(vals[3] * sc))
+    else:
+        # computed in floating point from the written scale
+        fs = float(sc)
+        x1, y1 = float(ox), float(oy)
+        t = (x1, y1, float(vals[2]) * fs, x1 + float(vals[0]) * fs, y1 + float(vals[1]) * fs, float(vals[3]) * fs)
+    if rng.random() < 0.5:
+        t = (t[3], t[4], t[5], t[0], t[1], t[2])
+    form = "int" if _integral(t) and rng.random() < 0.5 else "float"
+    if form == "float" and rng.random() < 0.1:
+        # the neighbours of the coincidence: one number moved by 1..3 ulp (the chord passes next to the centre)
+        i = rng.randrange(6)
+        t = t[:i] + (ulps(t[i], rng.choice([-3, -2, -1, 1, 2, 3])),) + t[i + 1:]
+        if min(t[2], t[5]) <= 0:
+            return gen_coincidence_case(rng)
+        sk += "-ulp"
+    return t, f"coinc-{kind}-{sk}", form
+
+
+def gen_boundary_case(rng):
+    """d == r2 exactly in binary64 (the centre of disc 1 on the boundary of disc 2), r1 from equal to 1e-12 * r2:
+    for a small r1, d^2 + r1^2 - r2^2 is r1^2 or - by absorption - exactly 0."""
+    a, b = rng.randint(1, 40), rng.randint(0, 40)
+    if rng.random() < 0.4:
+        b = 0
+    a, b = _sym(a, b, rng.randrange(8))
+    sc = rng.choice([1.0, 1.0, 2.0 ** rng.randint(-9, 14), float(F(rng.choice(DECIMAL_SCALES)))])
+    ox, oy = rng.choice([(0.0, 0.0), (0.0, 0.0), (float(rng.randint(-10, 10)), float(rng.randint(-10, 10))),
+                         (rng.randint(-80, 80) / 8, rng.randint(-80, 80) / 8)])
+    x2, y2 = ox + a * sc, oy + b * sc
+    d = ((ox - x2) ** 2 + (oy - y2) ** 2) ** (1 / 2)       # as Point.norm computes it
+    m = rng.random()
+    if m < 0.15:
+        r1 = d
+    elif m < 0.45:
+        r1 = d * 2.0 ** -rng.randint(1, 40)
+    elif m < 0.75:
+        r1 = d * 10.0 ** -rng.randint(1, 12)
+    elif m < 0.85:
+        r1 = d * rng.choice([0.5, 1.5, 1.25, 1.75, 1.999, 2.0 - 2.0 ** -40])
+    else:
+        r1 = d * rng.uniform(0.01, 1.99)
+    t = (ox, oy, r1, x2, y2, d)
+    if rng.random() < 0.5:
+        t = (t[3], t[4], t[5], t[0], t[1], t[2])
+    return t, "coinc-centre-on-boundary", "float"
+
+
+def realised(t) -> bool:
+    """Does the coincidence survive in binary64 (as the code computes its terms)? - for the evidence only."""
+    x1, y1, r1, x2, y2, r2 = t
+    d = ((x1 - x2) ** 2 + (y1 - y2) ** 2) ** (1 / 2)
+    return (r1 ** 2 + d ** 2 - r2 ** 2 == 0 or r2 ** 2 + d ** 2 - r1 ** 2 == 0 or d ** 2 - r1 ** 2 - r2 ** 2 == 0
+            or d == r1 or d == r2)
+
+
+# --------------------------------------------------------------------------
+# histories: the same two Point objects moved in place from call to call
+# --------------------------------------------------------------------------
+def gen_trajectory(rng, K=6):
+    """A layout-like history: a starting configuration (any class of the float stream, or a coincidence) and K-1
+    follow-ups - a centre moved by a relative step 1e-12..0.05 of the offset (or by an absolute fraction of the radius
+    when the centres coincide), a radius changed, radii or centres exchanged, the first configuration revisited,
+    fresh radii at the same centres."""
+    if rng.random() < 0.3:
+        t0, cls, _ = gen_coincidence_case(rng)
+    else:
+        t0, cls = gen_float_case(rng)
+    steps = [t0]
+    for _ in range(K - 1):
+        x1, y1, r1, x2, y2, r2 = steps[-1]
+        u = rng.choice([1e-12, 1e-9, 1e-6, 1e-3, 0.05]) * rng.choice([-1, 1])
+        dx, dy = (x2 - x1) or r1, (y2 - y1) or (r2 * rng.choice([0, 1]))
+        m = rng.random()
+        if m < 0.3:
+            x2, y2 = x2 + dx * u, y2 + dy * u
+        elif m < 0.45:
+            x1, y1 = x1 - dx * u, y1 + dy * u
+        elif m < 0.6:
+            r2 = r2 * (1 + u)
+        elif m < 0.7:
+            r1, r2 = r2, r1
+        elif m < 0.8:
+            x1, y1, x2, y2 = x2, y2, x1, y1
+        elif m < 0.9:
+            x1, y1, r1, x2, y2, r2 = steps[0]
+        else:
+            s = max(r1, r2)
+            r1, r2 = radius(rng, s), radius(rng, s)
+        steps.append((x1, y1, r1, x2, y2, r2))
+    return steps, "traj:" + cls
+
+
+# --------------------------------------------------------------------------
+# process states for the state runs
+# --------------------------------------------------------------------------
+ABS_EPS = [0.0, 1e-300, 1e-12, 1e-9, 1e-6, 1e-3, 0.3, 1.0, 1e3, 1e12]
+
+
+def pick_states(rng, t) -> list:
+    """Small, ordinary and large tolerances relative to the larger radius s (and absolute ones), through
+    set_epsilon(e), set_epsilon(e, a) or a loaded Die; then undefined again."""
+    s = max(t[2], t[5])
+    out = [["eps", s * rng.choice([1e-15, 1e-12, 1e-11, 1e-9])]]
+    e = s * rng.choice([1e-6, 1e-3, 0.05, 0.3]) if rng.random() < 0.7 else rng.choice(ABS_EPS)
+    if rng.random() < 0.3:
+        out.append(["eps2", e, rng.choice([0.0, e, e * s, s * s * rng.choice([1e-9, 1e-3, 0.3, 10.0])])])
+    else:
+        out.append(["eps", e])
+    m = rng.random()
+    if m < 0.06:
+        # Die: tolerance 1e-11 * min(W, H)
+        k = rng.choice([1e9, 1e10, 3e10, 1e11, 1e12])
+        lo = max(1, int(s * k))
+        out.append(["die", f"{lo * rng.choice([1, 2, 5])}x{lo}"])
+    elif m < 0.2:
+        big = s * rng.choice([1.0, 10.0, 1e6])
+        out.append(["eps2", big, s * s * rng.choice([0.0, 1e-6, 1.0, 100.0])])
+    else:
+        out.append(["eps", s * rng.choice([1.0, 10.0, 1e6])])
+    out.append(["undef"])
+    return out
+
+
+# --------------------------------------------------------------------------
 # float exploration (parallel)
 # --------------------------------------------------------------------------
 def _explore_chunk(args):
-    seed, n, repo = args
+    mode, seed, payload, repo = args
     import sys
     if repo not in sys.path:
         sys.path.insert(0, repo)
     rng = random.Random(seed)
+    srng = random.Random(seed * 7919 + 17)      # states: a stream of their own (the input stream stays as it was)
     dist: dict[str, int] = {}
     fails: dict[str, list] = {}
     nfail: dict[str, int] = {}
     seen = set()
     asym_bits = 0
-    for _ in range(n):
-        t, cls = gen_float_case(rng)
-        v, w = call(t)
+    nreal = 0
+    nstate = 0
+    if mode == "traj":
+        nsteps = 0
+        for _ in range(payload):
+            steps, cls = gen_trajectory(rng)
+            res = call_history(steps)
+            nsteps += len(steps)
+            dist[cls + "/steps"] = dist.get(cls + "/steps", 0) + len(steps)
+            j, at = None, len(steps) - 1
+            for i, (t, (fresh, _r)) in enumerate(zip(steps, res)):
+                seen.add((t, "traj"))
+                j = judge(t, fresh[0], fresh[1])
+                if j:
+                    at = i
+                    break
+            j = j or judge_history(steps, res)
+            if j:
+                if j[0] == "history-dependent":
+                    at = int(j[1].split()[1])
+                nfail[j[0]] = nfail.get(j[0], 0) + 1
+                lst = fails.setdefault(j[0], [])
+                if len(lst) < 3:
+                    lst.append((steps[at], cls, j[1], None, None, None, "float", steps[:at]))
+        return dist, fails, nfail, len(seen), 0, 0, 0, nsteps
+    if mode == "float":
+        items = ((*gen_float_case(rng), "float") for _ in range(payload))
+    elif mode == "coinc":
+        items = (gen_coincidence_case(rng) for _ in range(payload))
+    else:
+        items = iter(payload)
+    for t, cls, form in items:
+        states = pick_states(srng, t)
+        v, w, extra = call(t, states, form)
         k = exact_class(t)
         dist[f"{cls}/{k}"] = dist.get(f"{cls}/{k}", 0) + 1
-        seen.add(t)
+        seen.add((t, form))
         if v != w:
             asym_bits += 1
-        j = judge(t, v, w)
+        if mode != "float" and realised(t):
+            nreal += 1
+        nstate += sum(1 for e in extra if e is not None)
+        j = judge(t, v, w) or judge_states(t, v, w, states, extra)
         if j:
             nfail[j[0]] = nfail.get(j[0], 0) + 1
             lst = fails.setdefault(j[0], [])
             if len(lst) < 3:
-                lst.append((t, cls, j[1], repr(v), repr(w)))
-    return dist, fails, nfail, len(seen), asym_bits
+                lst.append((t, cls, j[1], repr(v), repr(w), states, form, None))
+    return dist, fails, nfail, len(seen), asym_bits, nreal, nstate, 0
 
 
-def explore(ctx, out, total):
+def explore(ctx, out, total, n_coinc=0, n_traj=0):
     nproc = min(14, os.cpu_count() or 2)
     per = 5000
-    chunks = [(ctx.seed * 1_000_003 + i, min(per, total - i * per), str(core.REPO))
+    repo = str(core.REPO)
+    chunks = [("float", ctx.seed * 1_000_003 + i, min(per, total - i * per), repo)
               for i in range((total + per - 1) // per)]
+    n_list = 0
+    if n_coinc:
+        ex = coincidence_exhaustive()
+        if n_coinc < len(ex):      # oracle-only runs: a deterministic sample
+            ex = ex[::max(1, len(ex) // n_coinc)]
+        n_list = len(ex)
+        for i in range(0, len(ex), 2500):
+            chunks.append(("list", ctx.seed * 1_000_003 + 500_000 + i, ex[i:i + 2500], repo))
+        rest = max(0, n_coinc - len(ex))
+        for i in range((rest + 2500 - 1) // 2500):
+            chunks.append(("coinc", ctx.seed * 1_000_003 + 700_000 + i, min(2500, rest - i * 2500), repo))
+    for i in range((n_traj + 500 - 1) // 500):
+        chunks.append(("traj", ctx.seed * 1_000_003 + 900_000 + i, min(500, n_traj - i * 500), repo))
     with mp.get_context("fork").Pool(nproc) as pool:
         results = pool.map(_explore_chunk, chunks, chunksize=1)
     distinct = 0
+    nsteps = 0
     nfail: dict[str, int] = {}
     collected: dict[str, list] = {}
-    asym_bits = 0
-    for dist, fails, nf, nd, ab in results:
+    asym_bits = nreal = nstate = 0
+    for dist, fails, nf, nd, ab, nr, ns, nst in results:
+        nsteps += nst
         for k, v in dist.items():
             out.count("float:" + k, v)
         distinct += nd
         asym_bits += ab
+        nreal += nr
+        nstate += ns
         for k, v in nf.items():
             nfail[k] = nfail.get(k, 0) + v
         for k, lst in fails.items():
             collected.setdefault(k, []).extend(lst)
-    out.evaluations += total
-    out.extra["float_cases"] = total
+    n_all = total + n_list + max(0, n_coinc - n_list)
+    out.evaluations += n_all + nsteps
+    out.extra["float_cases"] = n_all
+    out.extra["coincidence_cases"] = n_all - total
+    out.extra["histories"] = n_traj
+    out.extra["history_steps"] = nsteps
+    out.extra["coincidence_cases_exact_in_binary64"] = nreal
+    out.extra["state_runs"] = nstate
     out.extra["float_failures_by_kind"] = nfail
     out.extra["float_results_not_bitwise_symmetric"] = asym_bits
     for kind in sorted(collected):
-        t, cls, why, v, w = collected[kind][0]
-        case = case_dict(t, cls)
+        t, cls, why, v, w, states, form, before = collected[kind][0]
+        case = case_dict(t, cls, states if kind == "state-dependent" else None, form, before)
         small, obs, why2 = shrink_case(case, kind)
         entry = fail_entry(small, obs, why2, count_in_this_run=nfail[kind])
         if small != case:
@@ -373,21 +855,37 @@ def _round_bits(x: float, bits: int) -> float:
 def shrink(case):
     x1, y1, r1, x2, y2, r2 = case_tuple(case)
     cls = case.get("cls", "")
+    states, form = case.get("states"), case.get("form")
+    before = case.get("before")
+    if before:
+        # shorter histories first; the other shrinking steps would change the relation between the steps
+        yield case_dict((x1, y1, r1, x2, y2, r2), cls, states, form)
+        for i in range(len(before)):
+            yield case_dict((x1, y1, r1, x2, y2, r2), cls, states, form, before[:i] + before[i + 1:])
+        return
+    if states and len(states) > 1:
+        for st in states:
+            yield case_dict((x1, y1, r1, x2, y2, r2), cls, [st], form)
+    if form:
+        yield case_dict((x1, y1, r1, x2, y2, r2), cls, states, None)
     f, Point = _impl()
     d = (Point(x1, y1) - Point(x2, y2)).norm()
     if (x1, y1, y2) != (0.0, 0.0, 0.0) or x2 != d:
-        yield case_dict((0.0, 0.0, r1, d, 0.0, r2), cls)
+        yield case_dict((0.0, 0.0, r1, d, 0.0, r2), cls, states, form)
     big = max(r1, r2)
     if not 1 <= big < 2 and big > 0:
         k = 2.0 ** (-math.floor(math.log2(big)))
-        yield case_dict((x1 * k, y1 * k, r1 * k, x2 * k, y2 * k, r2 * k), cls)
+        sts = None
+        if states:
+            sts = [[st[0]] + [float(x) * k for x in st[1:]] if st[0] in ("eps", "eps2") else list(st) for st in states]
+        yield case_dict((x1 * k, y1 * k, r1 * k, x2 * k, y2 * k, r2 * k), cls, sts, form)
     for bits in (8, 16, 24, 32, 40):
         for which in (2, 5):
             t = [x1, y1, r1, x2, y2, r2]
             nv = _round_bits(t[which], bits)
             if nv != t[which] and nv > 0:
                 t[which] = nv
-                yield case_dict(tuple(t), cls)
+                yield case_dict(tuple(t), cls, states, form)
 
 
 def shrink_case(case, kind, budget=200):
@@ -461,15 +959,38 @@ def gen_proof_case(rng):
     if generic:
         x1, y1, x2, y2 = (_round_bits(v, 30) for v in (x1, y1, x2, y2))
     t = (x1, y1, r1, x2, y2, r2)
-    # keep clear of the singular points of the atan form
+    if not clear_of_tangency(t):
+        return gen_proof_case(rng)
+    return case_dict(t, "proof:" + cls)
+
+
+def clear_of_tangency(t) -> bool:
+    """keep clear of the singular points of the atan form"""
     x1, y1, r1, x2, y2, r2 = (F(v) for v in t)
     D2 = (x1 - x2) ** 2 + (y1 - y2) ** 2
     for edge in ((r1 + r2) ** 2, (r1 - r2) ** 2):
         if edge and abs(D2 - edge) < edge * F(1, 5000):
-            return gen_proof_case(rng)
+            return False
         if not edge and 0 < D2 < (r1 + r2) ** 2 * F(1, 10 ** 8):   # equal discs almost concentric: d -> 0 in a divisor
-            return gen_proof_case(rng)
-    return case_dict(t, "proof:" + cls)
+            return False
+    return True
+
+
+def gen_coincidence_proof_case(rng):
+    """An exact coincidence (right angle at a centre / orthogonal circles; unscaled or scaled by a power of two;
+    either order; origin or integer position) as an interval goal: the model's value there (cosine exactly 0,
+    Disc/LensCoincide.v) against the implementation's."""
+    while True:
+        want = "right-angle" if rng.random() < 0.7 else "orthogonal"
+        a, b, r1, r2, kind = rng.choice(bases_of(24, 40, want))
+        a, b = _sym(a, b, rng.randrange(8))
+        sc = 2.0 ** rng.choice([0, 0, 0, -3, -2, -1, 1, 2, 5])
+        ox, oy = rng.choice([(0.0, 0.0), (float(rng.randint(-10, 10)), float(rng.randint(-10, 10)))])
+        t = (ox, oy, r1 * sc, ox + a * sc, oy + b * sc, r2 * sc)
+        if rng.random() < 0.5:
+            t = (t[3], t[4], t[5], t[0], t[1], t[2])
+        if clear_of_tangency(t):
+            return case_dict(t, "proof:coincidence-" + kind)
 
 
 def proof_lemma(i, case, v) -> str:
@@ -550,7 +1071,10 @@ def prove_cases(ctx, out, cases, shard):
 def run(ctx, out, replay=None):
     quick = ctx.quick()
     n_proof = 40 if quick else 400
+    n_proof_coinc = 6 if quick else 60
     n_float = 120_000 if quick else 4_000_000
+    n_coinc = 24_000 if quick else 300_000
+    n_traj = 2_000 if quick else 40_000
     out.rule = (
         "two streams. (1) proof stream: random discs (radii 1e-3..1e6, mantissas of 6..52 bits; generic and axis-aligned "
         "centres; lens / near-tangent (relative gap 1e-4..1e-2) / far / nested / equal / concentric / decimal inputs); for "
@@ -560,6 +1084,23 @@ def run(ctx, out, replay=None):
         "tangencies (0.1+0.2 vs 0.3), a small disc inside a large one, equal discs, concentric, far, nested, scale sweep "
         "1e-3..1e6, thin lenses, random; each case is evaluated in both argument orders and judged by the direct oracle "
         "(no exception, finite, symmetric, 0 <= v <= pi*min(r)^2, |v - mpmath reference| <= 1e-5*max(r)^2). "
+        "(3) coincidence stream (float:coinc-*): radii and centre distance forming an exactly representable right "
+        "triangle - every integer solution of d^2 + r1^2 = r2^2 (chord through a centre) and r1^2 + r2^2 = d^2 "
+        "(orthogonal circles) with centre offset (a,b), 0 <= b <= a <= 24, r1 <= 40, under the 8 symmetries of the "
+        "offset, as floats and as Python ints (exhaustive part), then random transformations of the solutions with "
+        "a <= 40, r1 <= 60: scale (power of two / decimal as written / floating product), position (origin, "
+        "integers, eighths, multiples of 2^20, tenths), order of the discs, int form; and discs whose centre lies "
+        "exactly on the other's boundary (d == r2 in binary64, r1 from r2 down to 1e-12*r2); "
+        "`coincidence_cases_exact_in_binary64` counts those where the coincidence survives rounding. "
+        "(4) state runs: every case of (2) and (3) is evaluated again, on one reused pair of Point objects (the same "
+        "object twice for coincident centres), with the class-wide Rectangle tolerances defined - small (1e-15..1e-9 "
+        "of the larger radius), ordinary / absolute, large (1..1e6 radii), via set_epsilon(e), set_epsilon(e, a) or "
+        "a Die loaded while they are undefined - and finally undefined again; each result must equal the first "
+        "evaluation bit for bit (kind state-dependent). "
+        "(5) histories (float:traj:*): 6 related configurations in a row (a centre moved by a relative step 1e-12..0.05, "
+        "a radius changed, radii / centres exchanged, the first configuration revisited, fresh radii), each evaluated "
+        "on fresh Point objects (judged by the oracle) and on one pair of Point objects moved in place from step to "
+        "step; the two must agree bit for bit (kind history-dependent). "
         "distinct = distinct input tuples; all cases are non-trivial (each has its own radii and distance)")
     # ---- corpus / replay first: through impl + oracle + proof
     first = []
@@ -568,7 +1109,9 @@ def run(ctx, out, replay=None):
     first += fr.load_corpus("C17")
     proof_cases = []
     ndist = 0
-    for case in first:
+    for i, case in enumerate(first):
+        if not case.get("states"):      # stored cases too are evaluated in several process states
+            case = dict(case, states=pick_states(random.Random(i), case_tuple(case)))
         obs = run_impl(case)
         out.add_case(fr.tojson(case), True)
         out.count("corpus/" + exact_class(case_tuple(case)))
@@ -576,8 +1119,8 @@ def run(ctx, out, replay=None):
         if why:
             out.failures.append(fail_entry(case, obs, why))
     rng = ctx.rng
-    while len(proof_cases) < n_proof:
-        case = gen_proof_case(rng)
+    while len(proof_cases) < n_proof + n_proof_coinc:
+        case = gen_proof_case(rng) if len(proof_cases) < n_proof else gen_coincidence_proof_case(rng)
         obs = run_impl(case)
         out.add_case(fr.tojson(case), True)
         out.count(case["cls"] + "/" + exact_class(case_tuple(case)))
@@ -600,7 +1143,7 @@ def run(ctx, out, replay=None):
     out.extra["interval_goals_proved"] = len(proof_cases) - nbad
     out.extra["model_impl_agreements"] = len(proof_cases) - nbad
     # ---- float exploration
-    n_distinct_float = explore(ctx, out, n_float)
+    n_distinct_float = explore(ctx, out, n_float, n_coinc, n_traj)
     base = len(out.distinct)
 
     class _Count:
@@ -616,4 +1159,4 @@ def run_oracle_only(ctx, out):
         why = oracle(case, obs)
         if why:
             out.failures.append(fail_entry(case, obs, why))
-    explore(ctx, out, 50_000)
+    explore(ctx, out, 50_000, 10_000, 500)
